@@ -1,7 +1,7 @@
 #!/bin/bash
 # tools/r6_import.sh <Cxx> : import the candidates a sub-agent left in /tmp/r6-<Cxx>/out as work/cand/<Cxx>/m<k>.* (next free numbers),
 # confirm each in a scratch worktree (tools/confirm_seed.sh) and run the property's own check against it (tools/seedrun.sh)
-p="$1"; src=/tmp/r6-$p/out; d=/verif/work/cand/$p; mkdir -p "$d" /verif/work/seed_results
+p="$1"; src=/tmp/${ROUND:-r6}-$p/out; d=/verif/work/cand/$p; mkdir -p "$d" /verif/work/seed_results
 last=$(ls /verif/seeded | grep "^$p-m" | sed 's/.*-m//' | sort -n | tail -1); last=${last:-0}
 for j in 1 2; do
   [ -f "$src/m$j.diff" ] || continue
